@@ -1384,3 +1384,5 @@ if __name__ == "__main__":
     src2v3_enc.main()
     import src2v3_comp  # work package compT: coq/gen/Src3c.v (compress.rs, fails closed per item)
     src2v3_comp.main()
+    import src2v3_crypto  # work package cryptoT: coq/gen/Src3g.v (aesgcm.rs, ecc.rs; fails closed per item)
+    src2v3_crypto.main()
